@@ -30,8 +30,9 @@ def lock_name(text):
     return 'other'
 
 
-def install(ex):
-    """acquire / release / await events with the set of guards held at each await"""
+def install(ex, guarded=None):
+    """acquire / release / await events with the set of guards held at each await.  `guarded(name)` may give the reference a
+    guard of that lock dereferences to (the protected data, when the spec models it); otherwise the data is opaque."""
     ex.trace_awaits = True
 
     def acquire(ctx):
@@ -44,7 +45,8 @@ def install(ex):
         held = ctx.st.env.get('held', ())
         ctx.st.trace.append(('acquire', name, mode, held))
         ctx.st.env['held'] = held + ((name, mode),)
-        return Ref(ctx.st.alloc(Opaque('guarded:' + name, name)), ())
+        r = guarded(name) if guarded is not None else None
+        return r if r is not None else Ref(ctx.st.alloc(Opaque('guarded:' + name, name)), ())
     ex.overrides.append((re.compile(r'^tokio::sync::Mutex::<.*>::lock$|^tokio::sync::RwLock::<.*>::(?:read|write|read_owned|write_owned)$'), acquire))
 
     def release(st, text):
@@ -187,6 +189,77 @@ def spec_dispatcher_locks(ck):
             f.target = 'process_request locks'
     ck.absorb(ex, 'process_request (locks)', [o for o, _ in outs])
     ck.bounds['dispatcher-locks'] = 'one request through process_request (2-rule list, all dispatcher outcomes); acquire / await / drop order of the rule list guard'
+
+
+def spec_gc_locks(ck):
+    """one tick of the collector task (GlobalState::gc_thread) with an access log configured: the live-connection map and the
+    history list -- which every new connection (create_context) and the API need -- are held only for the in-memory bookkeeping,
+    never while the tick waits for something else (the access-log queue is bounded: a slow or stalled log writer would otherwise
+    stop every listener)."""
+    cands = [f for f in ck.db.fns if f.name.endswith('gc_thread::{closure#0}')]
+    if len(cands) != 1:
+        ck.add('C14/gc/anchor', 'undecided', 'anchor_missing: gc_thread body (%d candidates)' % len(cands))
+        return
+    body = ck.target(cands[0])
+    ex = ck.engine(loop_bound=5, call_depth=6)
+    ex.benign_havoc = harness.IRRELEVANT
+    ex.havoc_result_ok = True
+    ex.no_inline = [re.compile(r'AccessLog::write$')]
+    st = State()
+    gsf = ck.si.structs.get('GlobalState', ['history_size', 'next_id', 'alive', 'terminated', 'gc_list', 'access_log', 'default_timeout'])
+    if 'gc_list' not in gsf:
+        gsf = ['history_size', 'next_id', 'alive', 'terminated', 'gc_list', 'access_log', 'default_timeout']
+    pf = ck.si.structs.get('ContextProps', [])
+    batch = SeqV.from_items([Ref(st.alloc(Agg('ContextProps', {pf.index('id'): Int(z3.BitVec('ended_id%d' % i, 64), 64)})), ()) for i in range(2)],
+                            'Arc<ContextProps>', 'vec')
+    gs = Agg('context::GlobalState', {gsf.index('history_size'): Int(BV(8, 64), 64), gsf.index('gc_list'): batch,
+                                      gsf.index('terminated'): SeqV.from_items([], 'Arc<ContextProps>', 'list'), gsf.index('alive'): Opaque('HashMap', 'alive'),
+                                      gsf.index('access_log'): C.mk_option(ex, Opaque('AccessLog', 'the-log'))})
+    gcell = st.alloc(gs)
+    ticks = []
+    install(ex, guarded=lambda name: Ref(gcell, (('f', gsf.index(name), 'x'),)) if name in ('alive', 'terminated') else None)
+
+    def alive_remove(ctx):
+        return C.mk_option(ctx.ex, Opaque('Weak', 'w'))
+
+    def std_lock(ctx):
+        return C.mk_result(ctx.ex, ok=Ref(gcell, (('f', gsf.index('gc_list'), 'x'),)))
+
+    def sleep(ctx):
+        n = ctx.st.env.get('sleeps', 0) + 1
+        ctx.st.env['sleeps'] = n
+        if n >= 2:
+            ticks.append(ctx.st.fork())
+            ctx.st.status = 'dead'
+            from engine import DIVERGE
+            return DIVERGE
+        return Future('unit', [])
+
+    def log_write(ctx):
+        return Future('sym_result', ['access_log_queue'])
+    ex.overrides[0:0] = [(re.compile(r'^std::sync::Mutex::<.*>::lock$'), std_lock), (re.compile(r'^tokio::time::sleep$'), sleep),
+                         (re.compile(r'AccessLog::write$'), log_write), (re.compile(r'^HashMap::<u64, .*>::remove::<u64>$'), alive_remove)]
+    co = Agg('{async block@gc}', {0: Ref(gcell, ())}, 0, {}, None)
+    st.frames = []
+    ex.push_frame(st, body, [Ref(st.alloc(co), ()), Opaque('Context', 'cx')], None, None)
+    ex.run(st)
+    if not ticks:
+        ck.add('C14/gc/reachability', 'vacuous', 'the collector never completed one tick in the model')
+    seen_log = False
+    for o in ticks:
+        aw = [e for e in o.trace if e[0] == 'await']
+        seen_log = seen_log or any('sym_result' in str(e[1]) or 'access_log' in str(e[1]) for e in aw)
+        bad = [e for e in aw if any(h[0] in ('alive', 'terminated', 'rules') for h in e[2])]
+        ex.prove(o, 'C14/gc/collector-holds-no-registry-lock-while-waiting-for-anything-else', z3.BoolVal(not bad))
+        if bad:
+            o.notes.append('awaited %s while holding %s' % (str(bad[0][1])[:60], bad[0][2]))
+    if ticks and not seen_log:
+        ck.add('C14/gc/log-reachability', 'vacuous', 'no tick handed a record to the access log in the model')
+    for f in ex.findings:
+        if not hasattr(f, 'target'):
+            f.target = 'gc_thread locks'
+    ck.absorb(ex, 'gc_thread (locks)', None)
+    ck.bounds['gc-locks'] = 'one tick of the collector: 2 ended connections, access log configured; acquire / await / drop order of the live-map and history guards'
 
 
 def replay_plan(ob):
